@@ -244,5 +244,11 @@ func (l *interfaceListener) writeToUDPConn(
 
 	resp.written, _, resp.err = c.WriteMsgUDP(req.body, s.respOOB, req.session.raddr)
 
-	l.bodyPool.Put(&s.readBody)
+	// A session can be written to more than once (e.g. a failed write followed
+	// by an error response), but its read body must only be returned to the
+	// pool once.
+	if body := s.readBody; body != nil {
+		s.readBody = nil
+		l.bodyPool.Put(&body)
+	}
 }
